@@ -1559,3 +1559,245 @@ theorem elem_of_name {b : Base} {s : State} (hs : Inv b s) (hdt : DTFree b)
       · cases h
 
 end PtCore
+
+namespace PtCore
+
+/-! ## the namespace filled by `define_elements` (module attributes `periodictable.Fe`, `.iron`, `.D`) -/
+
+/-- a namespace entry x ↦ i is an element whose symbol or name is x, or one of the aliased isotopes -/
+def NsGood (b : Base) (s : State) (x : String) (i : Nat) : Prop :=
+  (∃ t z r, s.obj i = some (.element t z) ∧ b.row? z = some r ∧ (x = r.symbol ∨ x = r.name)) ∨
+  (∃ e a, s.obj i = some (.isotope e a) ∧ x ∈ ["D", "deuterium", "T", "tritium"])
+
+def NsOK (b : Base) (s : State) : Prop := ∀ x i, s.ns.get? x = some i → NsGood b s x i
+
+theorem NsGood.mono {b : Base} {s s' : State} (h : Ext s s') {x : String} {i : Nat}
+    (hg : NsGood b s x i) : NsGood b s' x i := by
+  rcases hg with ⟨t, z, r, ho, hr, hx⟩ | ⟨e, a, ho, hx⟩
+  · exact .inl ⟨t, z, r, h _ _ ho, hr, hx⟩
+  · exact .inr ⟨e, a, h _ _ ho, hx⟩
+
+theorem ns_step_ne (b : Base) (s : State) (op : Op) (hop : ∀ t, op ≠ .defineElements t) :
+    (step b s op).1.ns = s.ns := by
+  cases op with
+  | defineElements t => exact absurd rfl (hop t)
+  | newTable t =>
+    simp only [step, State.newTable]
+    split
+    · rfl
+    · have hfold : ∀ (rows : List BaseRow) (st : State),
+          (rows.foldl (fun st r => st.mkElement t r) st).ns = st.ns := by
+        intro rows
+        induction rows with
+        | nil => intro st; rfl
+        | cons r rows ih => intro st; simp only [List.foldl_cons]; rw [ih]; rfl
+      have hal : ∀ (st st' : State) (sy nm : String) (a : Nat), st.mkAlias t sy nm a = some st' → st'.ns = st.ns := by
+        intro st st' sy nm a hm
+        unfold State.mkAlias at hm
+        split at hm
+        · split at hm
+          · simp only [Option.some.injEq] at hm
+            rw [← hm]
+            simp only [State.addIsotope]
+            split <;> rfl
+          · cases hm
+        · cases hm
+      split
+      · exact hfold _ _
+      · next s3 h3 =>
+        split
+        · rw [hal _ _ _ _ _ h3]; exact hfold _ _
+        · next s4 h4 => rw [hal _ _ _ _ _ h4, hal _ _ _ _ _ h3]; exact hfold _ _
+  | getZ _ _ => rfl
+  | symbol _ _ => simp only [step]; split <;> rfl
+  | name _ _ =>
+    simp only [step]
+    split
+    · rfl
+    · split
+      · rfl
+      · split <;> rfl
+  | isotope _ _ =>
+    simp only [step]
+    split
+    · split
+      · split
+        · rfl
+        · split
+          · rfl
+          · split <;> rfl
+      · split <;> rfl
+      · rfl
+    · rfl
+  | attr _ _ => simp only [step]; split <;> rfl
+  | modAttr _ => simp only [step]; split <;> rfl
+  | iso _ _ => simp only [step]; split <;> rfl
+  | addIsotope o a =>
+    simp only [step]
+    split
+    · simp only [State.addIsotope]; split <;> rfl
+    · rfl
+  | ion o q =>
+    simp only [step]
+    split
+    · simp only [State.ionGet]
+      split
+      · rfl
+      · split
+        · split
+          · split <;> rfl
+          · rfl
+        · rfl
+    · rfl
+  | element _ => simp only [step]; split <;> rfl
+  | isotopes _ => simp only [step]; split <;> rfl
+  | iterTable _ => simp only [step]; split <;> rfl
+  | iterIso _ => simp only [step]; split <;> rfl
+  | reduce o =>
+    simp only [step]
+    split
+    · split
+      · simp only [State.path]
+        split
+        · rfl
+        · split
+          · simp only [State.ionGet]
+            split
+            · rfl
+            · split
+              · split
+                · split <;> rfl
+                · rfl
+              · rfl
+          · rfl
+      · rfl
+    · rfl
+  | changeTable o t =>
+    simp only [step]
+    split
+    · split
+      · simp only [State.path]
+        split
+        · rfl
+        · split
+          · simp only [State.ionGet]
+            split
+            · rfl
+            · split
+              · split
+                · split <;> rfl
+                · rfl
+              · rfl
+          · rfl
+      · rfl
+    · rfl
+
+end PtCore
+
+namespace PtCore
+
+theorem nsGood_set {b : Base} {s : State} {d : Dict String Nat}
+    (hd : ∀ x i, d.get? x = some i → NsGood b s x i) {k : String} {j : Nat} (hk : NsGood b s k j) :
+    ∀ x i, (d.set k j).get? x = some i → NsGood b s x i := by
+  intro x i hx
+  rw [Dict.get?_set] at hx
+  split at hx
+  · next hkx => cases hx; subst hkx; exact hk
+  · exact hd x i hx
+
+theorem nsOK_define {b : Base} {s : State} (hs : Inv b s) (hns : NsOK b s) (hdt : DTFree b) (t : String) :
+    NsOK b (step b s (.defineElements t)).1 := by
+  simp only [step]
+  split
+  · -- the namespace is rebuilt; objects are untouched
+    intro x i hx
+    simp only at hx
+    have hobj : ∀ (d : Dict String Nat) (j : Nat), ({ s with ns := d } : State).obj j = s.obj j := fun _ _ => rfl
+    suffices hgood : NsGood b s x i by
+      rcases hgood with ⟨t', z, r, ho, hr, hxx⟩ | ⟨e, a, ho, hxx⟩
+      · exact .inl ⟨t', z, r, ho, hr, hxx⟩
+      · exact .inr ⟨e, a, ho, hxx⟩
+    revert x i
+    -- second loop (D, T) over the result of the first loop (elements)
+    have h1 : ∀ (l : List (Nat × Nat)), (∀ zi ∈ l, s.obj zi.2 = some (.element t zi.1)) →
+        ∀ (d : Dict String Nat), (∀ x i, d.get? x = some i → NsGood b s x i) →
+        ∀ x i, (l.foldl (fun d (zi : Nat × Nat) =>
+          match b.row? zi.1 with
+          | some r => (d.set r.symbol zi.2).set r.name zi.2
+          | none => d) d).get? x = some i → NsGood b s x i := by
+      intro l
+      induction l with
+      | nil => intro _ d hd; exact hd
+      | cons zi l ih =>
+        intro hl d hd
+        simp only [List.foldl_cons]
+        apply ih (fun y hy => hl y (List.mem_cons_of_mem _ hy))
+        have ho := hl zi (List.mem_cons_self ..)
+        cases hr : b.row? zi.1 with
+        | none => exact hd
+        | some r =>
+          simp only
+          apply nsGood_set
+          · apply nsGood_set hd
+            exact .inl ⟨t, zi.1, r, ho, hr, .inl rfl⟩
+          · exact .inl ⟨t, zi.1, r, ho, hr, .inr rfl⟩
+    have h2 : ∀ (l : List String), (∀ k ∈ l, k = "D" ∨ k = "T") →
+        ∀ (d : Dict String Nat), (∀ x i, d.get? x = some i → NsGood b s x i) →
+        ∀ x i, (l.foldl (fun d k =>
+          match s.attrs.get? (t, k) with
+          | some i =>
+            match s.alias.get? i with
+            | some (sym, nm) => (d.set sym i).set nm i
+            | none => d
+          | none => d) d).get? x = some i → NsGood b s x i := by
+      intro l
+      induction l with
+      | nil => intro _ d hd; exact hd
+      | cons k l ih =>
+        intro hl d hd
+        simp only [List.foldl_cons]
+        apply ih (fun y hy => hl y (List.mem_cons_of_mem _ hy))
+        have hk := hl k (List.mem_cons_self ..)
+        cases ha : s.attrs.get? (t, k) with
+        | none => exact hd
+        | some i0 =>
+          simp only
+          obtain ⟨hh, a, z, nm0, ho, _, hal⟩ := alias_of_attr hs hdt hk ha
+          simp only [hal]
+          have hv := hs.aliasVals i0 _ hal
+          have hmem1 : k ∈ ["D", "deuterium", "T", "tritium"] := by
+            rcases hk with rfl | rfl <;> simp
+          have hmem2 : nm0 ∈ ["D", "deuterium", "T", "tritium"] := by
+            rcases hv with hp | hp
+            · have := congrArg Prod.snd hp; simp only at this; rw [this]; simp
+            · have := congrArg Prod.snd hp; simp only at this; rw [this]; simp
+          apply nsGood_set
+          · apply nsGood_set hd
+            exact .inr ⟨hh, a, ho, hmem1⟩
+          · exact .inr ⟨hh, a, ho, hmem2⟩
+    apply h2 ["D", "T"] (by intro k hk; simpa using hk)
+    apply h1 (s.sortedElems t)
+    · intro zi hzi
+      exact hs.elemSound _ _ _ (((sortedElems_spec hs t).2 zi.1 zi.2).mp hzi)
+    · intro x i hx; simp [Dict.get?] at hx
+  · exact hns
+
+theorem nsOK_step {b : Base} (hb : (b.map (·.z)).Nodup) (hdt : DTFree b) {s : State} (hs : Inv b s)
+    (hns : NsOK b s) (op : Op) : NsOK b (step b s op).1 := by
+  by_cases hop : ∃ t, op = .defineElements t
+  · obtain ⟨t, rfl⟩ := hop
+    exact nsOK_define hs hns hdt t
+  · have hne : ∀ t, op ≠ .defineElements t := fun t h => hop ⟨t, h⟩
+    intro x i hx
+    rw [ns_step_ne b s op hne] at hx
+    exact (hns x i hx).mono (inv_step hb hs op).2
+
+theorem nsOK_run {b : Base} (hb : (b.map (·.z)).Nodup) (hdt : DTFree b) :
+    ∀ (ops : List Op) {s : State}, Inv b s → NsOK b s → NsOK b (run b s ops)
+  | [], _, _, h => h
+  | op :: ops, _, hi, h => nsOK_run hb hdt ops (inv_step hb hi op).1 (nsOK_step hb hdt hi h op)
+
+theorem nsOK_init (b : Base) : NsOK b init := by
+  intro x i hx; simp [init, Dict.get?] at hx
+
+end PtCore
